@@ -441,7 +441,7 @@ fn bitmap_level(r: &Run) {
 pub fn run(tier: Tier, replay: Option<String>) -> i32 {
     let ctx = crate::new_ctx("C07", tier, "exploration", &replay);
     let profile: &'static str = if cfg!(debug_assertions) { "overflow-checked (dev) profile" } else { "release profile (overflow checks off)" };
-    ctx.set_rule("every public access/query entry point of guest memory (mmap collection and trait-default implementation), regions, volatile slices, typed/array/atomic accessors, bitmaps (fresh and after enlarge by page parts, within and across a 64-page word) and stream helpers x every address in {0, 1, region starts/ends +-1, 2^32+-1, 2^63+-1, 2^64-9..2^64-1} x every count/offset/element count in {0,1,2,7,8,9, every region/slice length +-1, values around isize::MAX and usize::MAX, pointer-overflowing values} x layouts with regions of 1 and 4097 bytes at the bottom, in the middle and at the very top of the address space; every call runs under catch_unwind plus a SIGABRT/SIGSEGV/SIGFPE handler and a watchdog (no progress for 20 s = endless loop), in the overflow-checked profile and in the release profile. Outcome required: the call returns (Ok or Err). One case = one call group; non-trivial = at least one argument beyond 4096; distinct by construction.");
+    ctx.set_rule("every public access/query entry point of guest memory (mmap collection and trait-default implementation), regions, volatile slices, typed/array/atomic accessors, bitmaps (fresh and after enlarge by page parts, within and across a 64-page word) and stream helpers x every address in {0, 1, region starts/ends +-1, 2^32+-1, 2^63+-1, 2^64-9..2^64-1} x every count/offset/element count in {0,1,2,7,8,9, every region/slice length +-1, values around isize::MAX and usize::MAX, pointer-overflowing values} x layouts with no region at all and with regions of 1 and 4097 bytes at the bottom, in the middle and at the very top of the address space; every call runs under catch_unwind plus a SIGABRT/SIGSEGV/SIGFPE handler and a watchdog (no progress for 20 s = endless loop), in the overflow-checked profile and in the release profile. Outcome required: the call returns (Ok or Err). One case = one call group; non-trivial = at least one argument beyond 4096; distinct by construction.");
     ctx.assume("program-controlled arguments (element type, the amount a bitmap is enlarged by - bitmaps that were enlarged are probed like fresh ones -, non-power-of-two alignment, out-of-range array index - the documented panic) are not in the alphabet");
     if ctx.replay_of.is_some() {
         println!("replay: deterministic enumeration; re-running it");
@@ -486,6 +486,8 @@ pub fn run(tier: Tier, replay: Option<String>) -> i32 {
         layouts.push(("mock", Layout { regs: vec![(0, size), ((1 << 63) - 1, size), (u64::MAX - size + 1, size)] }, true));
         layouts.push(("mmap", Layout { regs: vec![(1, size), (1 + size, size)] }, false));
     }
+    // no regions at all (GuestMemoryMmap::new(), or what remove_region leaves behind at the end)
+    layouts.push(("mmap", Layout { regs: vec![] }, false));
     if tier.thorough() {
         layouts.push(("mmap", Layout { regs: vec![(0x1000, 4096), (0x2000, 1), (0x2001, 4095), (0x4000, 8192)] }, false));
         layouts.push(("mock", Layout { regs: vec![(0, 1), (1, 1), (u64::MAX - 1, 1), (u64::MAX, 1)] }, true));
